@@ -2,7 +2,8 @@
 
 
 def run(ctx):
-    ctx.lean_obligations(["SV.Props.C14"], drivers=["svdriver_c14"])
+    ctx.regen_go2lean()
+    ctx.lean_obligations(["SV.Props.C14", "SV.Props.C14gen2"], drivers=["svdriver_c14"])
     quick = ctx.tier == "quick"
     b = ctx.go_test_binary("", "h_estargz", module_dir="estargz")
     if b:
